@@ -211,13 +211,15 @@ func c14Statements(depth int) []string {
 		for _, a := range args {
 			res = append(res, `["`+op+`",`+a+`]`)
 		}
-		sels := []string{`"."`, `".a"`, `".a?"`, `".?"`, `"x"`, `1`}
+		// second element: selector-like strings, a non-string, and - the operand shapes of not / and / or -
+		// a statement, a list of statements and the empty list, each followed by a third element
+		sels := []string{`"."`, `".a"`, `".a?"`, `".?"`, `"x"`, `1`, `["==",".a",1]`, `[["==",".a",1]]`, `[]`}
 		for _, a := range sels {
 			for _, b := range args {
 				res = append(res, `["`+op+`",`+a+`,`+b+`]`)
 			}
 		}
-		res = append(res, `["`+op+`",".a",1,2]`)
+		res = append(res, `["`+op+`",".a",1,2]`, `["`+op+`",["==",".a",1],["==",".b",2],["==",".c",3]]`, `["`+op+`",[["==",".a",1]],[["==",".b",2]],1]`)
 	}
 	res = append(res, `[1,".a",1]`, `[null,".a"]`, `"=="`, `{}`)
 	c14StmtMemo[depth] = res
